@@ -53,12 +53,16 @@ fn gen_value(seed: usize, len: usize) -> Vec<u8> {
     (0..len).map(|i| ((seed + i * 13 + (i >> 8)) & 255) as u8).collect()
 }
 
-fn fnv(b: &[u8]) -> u32 {
-    let mut h: u32 = 2166136261;
+/// CRC-32 (IEEE, as zlib.crc32) of the bytes
+fn crc32(b: &[u8]) -> u32 {
+    let mut c: u32 = 0xFFFF_FFFF;
     for x in b {
-        h = (h ^ (*x as u32)).wrapping_mul(16777619);
+        c ^= *x as u32;
+        for _ in 0..8 {
+            c = if c & 1 == 1 { 0xEDB8_8320 ^ (c >> 1) } else { c >> 1 };
+        }
     }
-    h
+    c ^ 0xFFFF_FFFF
 }
 
 fn item_str(it: &CachedItem) -> String {
@@ -69,7 +73,7 @@ fn item_str(it: &CachedItem) -> String {
         it.mime_type as usize,
         it.cache_time,
         it.data.len(),
-        fnv(&it.data)
+        crc32(&it.data)
     )
 }
 
@@ -269,7 +273,7 @@ fn req_case(lim: usize, tl: usize, reqs: &[Req]) -> String {
                 "R{},{},{:08x}",
                 mime_index(&resp),
                 resp.body.len(),
-                fnv(&resp.body)
+                crc32(&resp.body)
             )),
             Err(_) => {
                 toks.push("CRASH".into());
@@ -504,12 +508,12 @@ fn mix(h: u64, x: u64) -> u64 {
 const EXH_ROUTES: [&str; 3] = ["/a", "/ab", "/a/"];
 
 fn item_hash(it: &CachedItem) -> u64 {
-    let mut h = mix(11, fnv(it.route.as_bytes()) as u64);
+    let mut h = mix(11, crc32(it.route.as_bytes()) as u64);
     h = mix(h, it.host as u64);
     h = mix(h, it.mime_type as u64);
     h = mix(h, it.cache_time);
     h = mix(h, it.data.len() as u64);
-    mix(h, fnv(&it.data) as u64)
+    mix(h, crc32(&it.data) as u64)
 }
 
 fn fin_hash(c: &Cache) -> u64 {
